@@ -33,6 +33,23 @@ CLAIMS = {
         note=BASE_NOTE + "Key-length exactness and header binding of authenticated blobs are carried by C08/C06 theorems.",
         technique="Lean 4 proof (generic prefix argument + decide over the extracted header table) + exhaustive cross-product correspondence",
         design="§6 C10"),
+    "C11": dict(
+        text=("Validator expressions are an inductive type covering every public combinator (and_then, slices/Vec, Box, Rc, Arc, map, NoValidation) and built-in validator; "
+              "eval mirrors each validate body incl. early returns and jiff's panicking Timestamp +- Duration. eval_exact (mutual induction, any depth): inside the property's guard evaluation "
+              "never panics and returns Ok exactly when the specification's accepts holds, else ClaimsError; per-validator exactness corollaries; unseal releases claims only if the validator "
+              "returned Ok (unseal_releases_only_validated, unseal_rejects). Tie: ~11k validator expressions built as real Rust values at every boundary timestamp, compared with the model and "
+              "with an independent Python evaluator; unseal with validators on all six back ends."),
+        note=BASE_NOTE + "jiff's Timestamp ordering/arithmetic enter as integer nanoseconds with the representable range re-read from jiff each run.",
+        technique="Lean 4 proof (mutual structural induction over validator expressions) + differential correspondence",
+        design="§6 C11"),
+    "C14": dict(
+        text=("Model of the hand-written Serialize/Deserialize visitor at serde's data model (member lists in document order, duplicates allowed). Theorems for ALL claims / member lists: "
+              "claims_roundtrip, wire_form/absent_stays_absent/wire_order, ignores_unknown, order_irrelevant (any permutation, via commuting adjacent steps), agrees_with_generic "
+              "(last-duplicate-wins reading, incl. the null-then-value corner), Json wrapper transparency and empty-footer error. Tie: JSON text built from generated member lists "
+              "(3 escape styles) fed to the real decoder and to serde_json::Value; encode checked for RFC 3339 and ns-exact round trip over jiff's full range."),
+        note=BASE_NOTE + "serde_json's tokenizer and jiff's RFC 3339 codec are dependencies: a string value carries what jiff's parser makes of it, supplied by the implementation and re-checked at exec time.",
+        technique="Lean 4 proof (induction over member lists, permutation induction) + differential correspondence incl. generic-parser oracle",
+        design="§6 C14"),
 }
 
 def main():
